@@ -1,6 +1,7 @@
 import ast
 from collections.abc import Iterable
 
+from formulaic.errors import FormulaSyntaxError
 from formulaic.utils.code import format_expr, sanitize_variable_names
 
 from ..types.token import Token
@@ -29,13 +30,20 @@ def sanitize_python_code(expr: str) -> str:
     (by backticks) are properly handled.
     """
     aliases: dict[str, str] = {}
-    code = ast.parse(
-        sanitize_variable_names(expr, {}, aliases, template="_formulaic_{}"),
-        mode="eval",
-    )
-    # Restore the quoted names on the syntax tree (rather than by replacing
-    # text, which would also hit identifiers that merely contain an alias).
-    for node in ast.walk(code):
-        if isinstance(node, ast.Name) and node.id in aliases:
-            node.id = f"`{aliases[node.id]}`"
-    return format_expr(code)
+    try:
+        code = ast.parse(
+            sanitize_variable_names(expr, {}, aliases, template="_formulaic_{}"),
+            mode="eval",
+        )
+        # Restore the quoted names on the syntax tree (rather than by replacing
+        # text, which would also hit identifiers that merely contain an alias).
+        for node in ast.walk(code):
+            if isinstance(node, ast.Name) and node.id in aliases:
+                node.id = f"`{aliases[node.id]}`"
+        return format_expr(code)
+    except (RecursionError, ValueError) as e:
+        # e.g. code nested too deeply for Python's parser, or text that cannot
+        # be encoded as source code (lone surrogates, null bytes)
+        raise FormulaSyntaxError(
+            f"Unable to parse Python code `{expr[:40]}`: {type(e).__name__}."
+        ) from e
